@@ -53,7 +53,17 @@ def run(prop):
             jobs.append((p, silent, rule))
     for d in sorted(glob.glob(os.path.join(HERE, "seeded", "%s-*" % prop))):
         jobs.append((os.path.join(d, "patch.diff"), False, None))
-    with ThreadPoolExecutor(max_workers=4) as ex:
+    # behaviour-preserving refactorings: the check must stay silent (except the documented fail-closed pairs)
+    exp = {}
+    try:
+        exp = json.load(open(os.path.join(HERE, "selftest", "equivalents", "EXPECTED_ALARMS.json")))
+    except (OSError, ValueError):
+        pass
+    for p in sorted(glob.glob(os.path.join(HERE, "selftest", "equivalents", "*.diff"))):
+        if prop in exp.get(os.path.basename(p), []):
+            continue
+        jobs.append((p, True, None))
+    with ThreadPoolExecutor(max_workers=6) as ex:
         res = list(ex.map(lambda j: _one(prop, *j), jobs))
     bad = [r for r in res if r["status"] not in ("caught", "caught-other-rule", "silent-ok", "patch-does-not-apply")]
     return {"run": len(res), "caught": sum(1 for r in res if r["status"].startswith("caught")), "silent_ok": sum(1 for r in res if r["status"] == "silent-ok"),
